@@ -250,6 +250,7 @@ class ReAuthRequest(ReAuth):
         self.header.is_proxyable = True
 
         setattr(self, "auth_application_id", 0)
+        setattr(self, "state_class", [])
         setattr(self, "proxy_info", [])
         setattr(self, "route_record", [])
         setattr(self, "framed_ipv6_prefix", [])
